@@ -236,3 +236,93 @@ Proof.
     + rewrite nth_upd_other by exact D. destruct (nth_error h k); [|exact I]. split; [tauto|split; reflexivity].
   - intros k. unfold raw_pure. rewrite (kwarg_order_neutral H cs h (fun _ => None) n x f' Ex P ND fuel k). reflexivity.
 Qed.
+
+(* ---- reloaded graphs (C12): the full identifier ------------------------------------------------ *)
+From XV Require Import model.Serial proofs.Serial_lemmas.
+
+Definition fields_nodup (h : heap) : Prop := forall n x, nth_error h n = Some x -> NoDup (map fst (n_fields x)).
+
+Lemma in_assoc_iff {A} (l : list (bytes * A)) k v : NoDup (map fst l) -> (In (k, v) l <-> assoc k l = Some v).
+Proof. intros ND. split; [apply assoc_in; exact ND|apply assoc_some_in]. Qed.
+
+Lemma heap_equiv_same_succs h h' : heap_equiv h h' -> fields_nodup h -> fields_nodup h' -> same_succs h h'.
+Proof.
+  intros [L Eq] N N'. split; [exact L|]. intros n. specialize (Eq n).
+  destruct (nth_error h n) as [x|] eqn:Ex, (nth_error h' n) as [y|] eqn:Ey; try contradiction; [|exact I].
+  destruct Eq as [_ [_ [Et [Ep [Ei Ef]]]]]. split; [|split; assumption].
+  intros m. unfold succs. rewrite Et, Ep, Ei. rewrite !in_app_iff, !in_flat_map.
+  split; (intros [[[k v] [Hkv Hm]]|Hr]; [left; exists (k, v); split; [|exact Hm]|right; exact Hr]).
+  - apply (in_assoc_iff _ k v (N' n y Ey)). rewrite <- Ef. apply (in_assoc_iff _ k v (N n x Ex)). exact Hkv.
+  - apply (in_assoc_iff _ k v (N n x Ex)). rewrite Ef. apply (in_assoc_iff _ k v (N' n y Ey)). exact Hkv.
+Qed.
+
+Lemma set_field_keys k v : forall l, NoDup (map fst l) -> NoDup (map fst (set_field k v l)).
+Proof.
+  induction l as [|[k' v'] l IH]; cbn [set_field map fst]; intros ND; [constructor; [intros []|constructor]|].
+  inversion ND as [|? ? Hn ND']; subst. destruct (bytes_eqb k k') eqn:E; cbn [map fst].
+  - apply bytes_eqb_eq in E. subst k'. constructor; assumption.
+  - constructor; [|apply IH; exact ND']. intros Hin.
+    assert (G : forall l0, In k' (map fst (set_field k v l0)) -> k' = k \/ In k' (map fst l0)).
+    { induction l0 as [|[a b] l0 IHl]; cbn [set_field map fst]; intros H0.
+      - destruct H0 as [H0|[]]. left. symmetry. exact H0.
+      - destruct (bytes_eqb k a) eqn:Ea; cbn [map fst] in H0.
+        + destruct H0 as [H0|H0]; [left; symmetry; exact H0|right; right; exact H0].
+        + destruct H0 as [H0|H0]; [right; left; exact H0|]. destruct (IHl H0) as [G0|G0]; [left; exact G0|right; right; exact G0]. }
+    destruct (G l Hin) as [->|Hin']; [rewrite bytes_eqb_refl in E; discriminate|exact (Hn Hin')].
+Qed.
+
+Lemma init_fields_keys c : NoDup (map a_name (c_args c)) -> NoDup (map fst (init_fields c)).
+Proof.
+  unfold init_fields. generalize (c_args c) as args. induction args as [|a args IH]; cbn [map flat_map]; intros ND; [constructor|].
+  inversion ND as [|? ? Hn ND']; subst. rewrite map_app.
+  assert (Sub : forall k, In k (map fst (flat_map (fun a0 => match a_default a0 with
+                    | Some d => [(a_name a0, d)] | None => if a_required a0 then [] else [(a_name a0, VNone)] end) args))
+                          -> In k (map a_name args)).
+  { intros k Hk. apply in_map_iff in Hk. destruct Hk as [[k0 v0] [Ek Hk]]. cbn in Ek. subst k0.
+    apply in_flat_map in Hk. destruct Hk as [b [Hb Hk]]. apply in_map_iff. exists b. split; [|exact Hb].
+    destruct (a_default b); [destruct Hk as [E|[]]; inversion E; reflexivity|].
+    destruct (a_required b); [destruct Hk|destruct Hk as [E|[]]; inversion E; reflexivity]. }
+  destruct (a_default a); cbn [map fst app].
+  - constructor; [intros Hin; apply Hn, Sub; exact Hin|apply IH; exact ND'].
+  - destruct (a_required a); cbn [map fst app]; [apply IH; exact ND'|].
+    constructor; [intros Hin; apply Hn, Sub; exact Hin|apply IH; exact ND'].
+Qed.
+
+Lemma load_node_keys cs d y : (forall c, nth_error cs (d_cls d) = Some c -> NoDup (map a_name (c_args c))) ->
+  load_node cs true true d = Some y -> NoDup (map fst (n_fields y)).
+Proof.
+  intros Hc L. unfold load_node in L. destruct (nth_error cs (d_cls d)) as [c|] eqn:Ec; [|discriminate].
+  inversion L. cbn [n_fields]. clear L.
+  generalize (init_fields_keys c (Hc c eq_refl)). generalize (init_fields c) as base. generalize (d_fields d) as kvs.
+  induction kvs as [|[k v] kvs IH]; intros base ND; cbn [fold_left]; [exact ND|]. apply IH. apply set_field_keys. exact ND.
+Qed.
+
+Lemma load_into_keys cs : (forall c, In c cs -> NoDup (map a_name (c_args c))) ->
+  forall ds g g', fields_nodup g -> load_into cs true true g ds = Some g' -> fields_nodup g'.
+Proof.
+  intros Hc. induction ds as [|d ds IH]; intros g g' N L; cbn [load_into] in L; [inversion L; subst; exact N|].
+  destruct (load_node cs true true d) as [y|] eqn:Ly; [|discriminate]. apply (IH (upd_nth g (d_id d) y) g'); [|exact L].
+  intros n x E. destruct (Nat.eq_dec (d_id d) n) as [<-|D].
+  - destruct (Nat.lt_ge_cases (d_id d) (length g)) as [Lt|Ge].
+    + rewrite nth_upd_same in E by exact Lt. inversion E. subst x.
+      apply (load_node_keys cs d y); [|exact Ly]. intros c Ec. apply Hc. eapply nth_error_In. exact Ec.
+    + assert (nth_error (upd_nth g (d_id d) y) (d_id d) = None) by (apply nth_error_None; rewrite upd_nth_length_eq; exact Ge).
+      congruence.
+  - rewrite nth_upd_other in E by exact D. apply (N n x E).
+Qed.
+
+(* after reloading a saved graph the FULL identifier of every node is the original one *)
+Theorem reload_full_ident cs H h fuel r h' :
+  wf_heap h -> fields_nodup h -> (forall c, In c cs -> NoDup (map a_name (c_args c))) ->
+  (forall n, complete_at cs h n) ->
+  reload cs true true h fuel r = Some h' ->
+  forall f n d, n < length h -> full_pure H cs h f n = Ok d -> full_pure H cs h' f n = Ok d.
+Proof.
+  intros W N Hc Comp R f n d Ln E.
+  destruct (reload_ident cs H h fuel r h' (fun _ => None)) as [Eq Er]; [intros d0 _; apply Comp|exact R|].
+  assert (N' : fields_nodup h').
+  { unfold reload in R. destruct (resolves (save cs true h fuel r)); [|discriminate].
+    apply (load_into_keys cs Hc (save cs true h fuel r) h h' N R). }
+  apply (full_pure_same_succs H cs cs h h' f n d W (heap_equiv_same_succs h h' Eq N N') Ln); [|exact E].
+  intros m. unfold raw_pure. rewrite (Er f m). reflexivity.
+Qed.
